@@ -47,6 +47,7 @@ func clSwapSettleRules(c *rules.Ctx) {
 	c.Let("FEE", "sdk.NewCoin(swapDetails.TokenIn.Denom, sdkmath.LegacyDec.TruncateInt(sdkmath.LegacyDec.Ceil(totalSpreadFactors)))")
 	c.StoreField(US, "Amount", "sdkmath.Int.Sub(swapDetails.TokenIn.Amount, {FEE}.Amount)", "the amount sent to the pool is token-in less the (ceiled) spread fee")
 	c.CheckedCallOpt(US, "cltypes.BankKeeper.SendCoins[3=cltypes.ConcentratedPoolExtension.GetSpreadRewardsAddress(_)]", []string{"k.bankKeeper", "ctx", "swapDetails.Sender", "_", "list({FEE})"}, "the spread fee (rounded up) goes from the trader to the spread-reward account", "/fee", false)
+	c.ReachedWhenAny(US, "cltypes.BankKeeper.SendCoins[3=cltypes.ConcentratedPoolExtension.GetSpreadRewardsAddress(_)]", []string{"not(sdk.Coin.IsZero({FEE}))", "sdk.Coin.IsPositive({FEE})", "sdkmath.Int.IsPositive({FEE}.Amount)", "not(sdkmath.Int.IsZero({FEE}.Amount))"}, "every non-zero (rounded-up) spread fee is collected from the trader — it was already deducted from what the pool receives")
 	c.CheckedCall(US, "cltypes.BankKeeper.SendCoins[2=swapDetails.Sender][3=cltypes.ConcentratedPoolExtension.GetAddress(_)]", nil, "token-in (less fee) goes from the trader to the pool account", "/in")
 	c.CheckedCall(US, "cltypes.BankKeeper.SendCoins[2=cltypes.ConcentratedPoolExtension.GetAddress(_)]", []string{"k.bankKeeper", "ctx", "_", "swapDetails.Sender", "list(swapDetails.TokenOut)"}, "exactly token-out goes from the pool account to the trader", "/out")
 	c.CheckedCall(US, "cltypes.ConcentratedPoolExtension.ApplySwap", []string{"_", "poolUpdates.NewLiquidity", "poolUpdates.NewCurrentTick", "poolUpdates.NewSqrtPrice"}, "the pool state of the computed swap is applied", "")
@@ -210,6 +211,9 @@ func clPoolWriteRules(c *rules.Ctx) {
 	c.StoreField(A, "CurrentSqrtPrice", "newCurrentSqrtPrice", "the stored sqrt price is the computed one at full (36-decimal) precision")
 	c.StoreField(A, "CurrentTick", "newCurrentTick", "the stored tick is the computed one")
 	c.StoreField(A, "CurrentTickLiquidity", "newLiquidity", "the stored liquidity is the computed one")
+	for _, fv := range [][2]string{{"CurrentSqrtPrice", "newCurrentSqrtPrice"}, {"CurrentTick", "newCurrentTick"}, {"CurrentTickLiquidity", "newLiquidity"}} {
+		c.MustStore(A, fv[0], fv[1], "price, tick and liquidity are replaced together on every successful swap (no 'nothing changed' shortcut: a swap inside one bucket moves price and tick with the liquidity unchanged)")
+	}
 }
 
 // spotPriceRules (C13, C14; round 6): the spot-price entry points chop to the 18-decimal grid before rounding to
